@@ -115,7 +115,7 @@ Definition zdot (σ : store Z) (ta tb : nat) : store Z * outcome Z :=
 
 (* ---- Dense.TensorMul(other, axesA, axesB) (dense_linalg.go): clones of both operands are lazily
    transposed so that the contracted axes come last (resp. first), transposed physically, reshaped
-   to matrices, multiplied by Dot, and the product is reshaped; the clones go back to the pool ---- *)
+   to matrices, multiplied by MatMul, and the product is reshaped; the clones go back to the pool ---- *)
 Definition ztensormul (σ : store Z) (ta tb : nat) (axesA axesB : list Z) : store Z * outcome Z :=
   match get_t Z σ ta, get_t Z σ tb with
   | Some a, Some b =>
@@ -164,7 +164,7 @@ Definition ztensormul (σ : store Z) (ta tb : nat) (axesA axesB : list Z) : stor
         | Ok σ3 =>
           match prep σ3 ib (axesB ++ notB) shO with
           | Ok σ4 =>
-            match zdot σ4 ia ib with
+            match lres_outcome σ4 (m_matmul Z 0 Z.add Z.mul σ4 ia ib LSafe) with
             | (σ5, RNew _ p) =>
               match m_reshape Z σ5 p retShape with
               | Ok (σ6, false) =>
